@@ -348,8 +348,8 @@ def demo_numeric_columns():
             (['a', 1], 8, 1, 0, None, TypeError),          # text in a numeric column
             (['a', 'a'], 8, 1, 0, None, TypeError),
             ([None, None], 8, 0, 0, 3, TypeError),          # declared count disagrees, nothing to span
-            ([None], 70, 0, 0, None, IndexError),           # no missing value for such a width
-            ([1, None, 2 ** 70], 80, 0, 0, None, IndexError),
+            ([None], 256, 0, 0, None, IndexError),          # no missing value for such a width
+            ([1, None, 2 ** 255], 260, 0, 0, None, IndexError),
     ):
         recorder = Recorder()
         try:
@@ -363,10 +363,18 @@ def demo_numeric_columns():
     recorder = Recorder()
     run_column(encoder, ['a', 'a'], 8, 0, 0, recorder)
     assert recorder.calls == [('a', 8), (0, 6)]
-    # a declared count that disagrees with the data disables the all-equal shortcut
+    # a declared count that disagrees with the data disables the all-equal shortcut; the raw
+    # values are then found to agree all the same, and are written as one field of width 0
     recorder = Recorder()
     run_column(encoder, [4, 4], 8, 0, 0, recorder, n_declared=3)
-    assert recorder.calls == [(4, 8), (2, 6), (0, 2), (0, 2)], recorder.calls
+    assert recorder.calls == [(4, 8), (0, 6)], recorder.calls
+    # so are values that agree only after scaling - unless an entry is missing
+    recorder = Recorder()
+    run_column(encoder, [1.01, 1.02], 12, 1, -5, recorder)
+    assert recorder.calls == [(15, 12), (0, 6)], recorder.calls
+    recorder = Recorder()
+    run_column(encoder, [1.01, None, 1.02], 12, 1, -5, recorder)
+    assert recorder.calls == [(15, 12), (2, 6), (0, 2), (3, 2), (0, 2)], recorder.calls
 
 
 if __name__ == '__main__':
